@@ -1,7 +1,8 @@
 (* C04 -- Constants are immutable and pure functions stay pure.
    Only pinned statements, `exact`, Examples / refutation witnesses by vm_compute, and Print Assumptions. *)
 From Coq Require Import String List NArith ZArith PArith Bool FMapPositive.
-From Sylt Require Import Syntax.Resolved Types.TyGraph Types.Tc Types.Ctx Types.TcInv Types.Reject Types.Mismatch Types.Purity Types.Shapes.
+From Sylt Require Import Syntax.Resolved Types.TyGraph Types.Tc Types.Ctx Types.TcInv Types.Reject Types.Mismatch Types.Purity Types.Shapes
+  Types.SoundE0 Types.SoundE1 Types.PureSem.
 Import ListNotations.
 Local Open Scope string_scope.
 
@@ -65,6 +66,48 @@ Definition C04_impure_where_pu_declared_statement : Prop :=
 Theorem C04_impure_where_pu_declared_refuted : exists fuel, typecheck fuel Purity.laundering_program = Ok tt.
 Proof. exact Purity.purity_laundering_accepted. Qed.
 
+(* the positive direction, semantically.  A block of the E1 fragment (local definitions with or without annotation,
+   assignments, reads, the E0 expressions: Types/SoundE1.v) that the checker ACCEPTS in a TypeCtx with inside_pure -- the
+   body of a `pu` function and everything nested in it (C04_pure_ctx) -- with any fuel, in any state:
+     (1) contains no assignment and no mutable definition, and reads only variables the resolver marked Const;
+     (2) evaluated by the tagged evaluator with a store (the one of C02_E1) from ANY store, leaves that store as it is:
+         the final store is the initial one with the block's own constants pushed on top (no binding is updated);
+     (3) gives the same result from any two stores that agree on the variables marked Const.
+   With C02_E1 (the evaluation of an accepted block of the fragment does not get stuck) this is: an accepted pure body
+   of the fragment evaluates without changing the store, and its value depends on constants only. *)
+Theorem C04_pure_no_store_effect : forall farith fneg fcmp of_int scmp kinds g f ctx sp ss (e : e1) s r s',
+  inside_pure ctx = true ->
+  expression_block (gfix g) (afix kinds (gfix g) f) sp (to_block1 sp ss e) ctx s = Ok (r, s') ->
+  pure_block1 kinds ss e = true /\
+  (forall st0 st1, exec_all farith fneg fcmp of_int scmp st0 ss = Some st1 ->
+     exists binds, st1 = (binds ++ st0)%list /\ map fst binds = defs1 ss) /\
+  (forall st0 st0', agree kinds st0 st0' ->
+     run1 farith fneg fcmp of_int scmp st0 ss e = run1 farith fneg fcmp of_int scmp st0' ss e).
+Proof. exact PureSem.pure_no_store_effect. Qed.
+
+(* the definitions the statement rests on, pinned *)
+Example C04_pure_block1_def : forall kinds ss e,
+  pure_block1 kinds ss e = forallb (pure_stmt1 kinds) ss && reads_const kinds e.
+Proof. reflexivity. Qed.
+Example C04_pure_stmt1_def : forall kinds st,
+  pure_stmt1 kinds st = match st with
+                        | D1 _ Const _ e => reads_const kinds e
+                        | D1 _ Mutable _ _ => false
+                        | A1 _ _ => false
+                        | X1 e => reads_const kinds e
+                        end.
+Proof. reflexivity. Qed.
+Example C04_const_var_def : forall kinds x,
+  const_var kinds x = match PositiveMap.find (N.succ_pos x) kinds with Some Const => true | _ => false end.
+Proof. reflexivity. Qed.
+Example C04_agree_def : forall kinds r1 r2,
+  agree kinds r1 r2 = (forall x, const_var kinds x = true -> slookup r1 x = slookup r2 x).
+Proof. reflexivity. Qed.
+Example C04_run1_exec_all : forall farith fneg fcmp of_int scmp ss r e,
+  run1 farith fneg fcmp of_int scmp r ss e =
+  match exec_all farith fneg fcmp of_int scmp r ss with Some r' => eval1 farith fneg fcmp of_int scmp r' e | None => None end.
+Proof. exact PureSem.run1_exec_all. Qed.
+
 (* ---- non-vacuity *)
 Definition sp0 : span := mkSpan 0 1 1 1 2.
 Definition spl (l : N) : span := mkSpan 0 l l 1 2.
@@ -96,7 +139,41 @@ Example C04_example_pure_read :
   = Err (mkErr KImpurity (spl 5)) [].
 Proof. vm_compute. reflexivity. Qed.
 
+(* non-vacuity of C04_pure_no_store_effect:  c :: 1 (outside) ;  in a pure body:  y: int : c + 2 ; y < c  is accepted;
+   with  m := 1 (outside)  the body  y :: m + 2 ; y  is rejected (Impurity), and so is  y := 1 ; y *)
+Definition kindsp : PositiveMap.t varkind :=
+  PositiveMap.add (N.succ_pos 1) Const (PositiveMap.add (N.succ_pos 2) Const
+    (PositiveMap.add (N.succ_pos 3) Mutable (PositiveMap.empty varkind))).
+Definition pure_ctx : tctx := enter_fn true ctx_new.
+Definition outer_defs : list stmt :=
+  [SDefinition "c" 1 Const (TImplied sp0) (EInt 1 sp0) sp0; SDefinition "m" 3 Mutable (TImplied sp0) (EInt 1 sp0) sp0].
+Definition check_pure_block (ss : list s1) (e : e1) :=
+  (init_vars 4 ;;; iterM (fun st => r_stmt (afix kindsp (gfix 30) 30) st ctx_new ;;; ret tt) outer_defs ;;;
+   expression_block (gfix 30) (afix kindsp (gfix 30) 30) sp0 (to_block1 sp0 ss e) pure_ctx)%tc empty_st.
+Example C04_example_pure_ctx : inside_pure pure_ctx = true.
+Proof. reflexivity. Qed.
+Example C04_example_pure_block_accepted :
+  match check_pure_block [D1 2 Const (Some TI) (Bin1 Add (R1 1) (I1 2))] (Bin1 Less (R1 2) (R1 1)) with
+  | Ok _ => true | _ => false end = true.
+Proof. vm_compute. reflexivity. Qed.
+Example C04_example_pure_block_is_pure :
+  pure_block1 kindsp [D1 2 Const (Some TI) (Bin1 Add (R1 1) (I1 2))] (Bin1 Less (R1 2) (R1 1)) = true.
+Proof. reflexivity. Qed.
+Example C04_example_pure_block_reads_mutable :
+  match check_pure_block [D1 2 Const None (Bin1 Add (R1 3) (I1 2))] (R1 2) with
+  | Err e _ => e_kind e | _ => KExotic end = KImpurity.
+Proof. vm_compute. reflexivity. Qed.
+Example C04_example_pure_block_mutable_def :
+  match check_pure_block [D1 2 Mutable None (I1 1)] (R1 2) with
+  | Err e _ => e_kind e | _ => KExotic end = KImpurity.
+Proof. vm_compute. reflexivity. Qed.
+Example C04_example_pure_block_assigns :
+  match check_pure_block [A1 3 (I1 2)] (I1 1) with
+  | Err e _ => true | _ => false end = true.
+Proof. vm_compute. reflexivity. Qed.
+
 Print Assumptions C04_const_assign_rejected.
+Print Assumptions C04_pure_no_store_effect.
 Print Assumptions C04_kinds_of_var.
 Print Assumptions C04_pure_ctx.
 Print Assumptions C04_pure_rejects.
